@@ -31,5 +31,7 @@ example : ((unwrap F0 [.resampled [2] [1/2], .sliced [.int 3, .slice (some 1) (s
 example : fillKept (0 : Rat) [false, true, false] (mulAdd [1, 2] [2, 3] [1/2, 1]) = [5/2, 0, 7] ∧
     nKept [false, true, false] = 2 := by decide +kernel
 example : (unwrap F0 [.sliced [.all, .all], .unknown]).toOption = none := by decide +kernel
+example : (unwrapAny none []).toOption = none ∧ (unwrapAny none [.sliced [.all]]).toOption = none ∧
+    ((unwrapAny (some F0) []).toOption.map fun r => r.2) = some [false, false] := by decide +kernel
 
 end Ndcube.C15.Witness
